@@ -630,3 +630,177 @@ func TestREPLInterrupt(t *testing.T) {
 		}
 	}
 }
+
+// ---------------------------------------------------------------------------
+// (v) interrupt after nested evaluations that already ended
+//
+// The evaluation that is running when the interrupt arrives is preceded by
+// nested eval(...) calls that ended in different ways: exhausted normally,
+// ended by a runtime error that the enclosing program caught, yielded and then
+// failed, nested twice.  Whatever ended before, the interrupt must cancel the
+// evaluation in progress.  (Found necessary by seed C20-2: a finished-with-
+// error nested evaluation that is not popped makes every later interrupt hit
+// the stale entry.)  Prefixes with a nested evaluation that is ABANDONED before
+// it is exhausted (first/limit) are a listed known finding of the unchanged
+// tree; their class is decided from the generated program, not from fq's
+// behaviour.
+
+var endedActions = []struct {
+	name, src string
+	abandoned bool
+}{
+	{"eval-exhausted", `eval("1")`, false},
+	{"eval-error-caught", `(try eval("error(\"boom\")") catch "caught")`, false},
+	{"eval-collected", `[eval("1,2")]`, false},
+	{"eval-nested", `eval("eval(\"2\")")`, false},
+	{"eval-yield-then-error", `[(try eval("1, error(\"x\")") catch "c")]`, false},
+	{"eval-error-uncaught-inner-try", `(eval("try error(\"y\") catch 3"))`, false},
+	{"eval-abandoned-first", `first(eval("1,2"))`, true},
+	{"eval-abandoned-limit", `[limit(1; eval("range(10)"))]`, true},
+}
+
+type scenario struct {
+	Prefix []int  `json:"prefix"`
+	Mode   string `json:"mode"` // cli | repl
+}
+
+func (sc scenario) program() string {
+	var parts []string
+	for _, i := range sc.Prefix {
+		parts = append(parts, endedActions[i].src)
+	}
+	parts = append(parts, `"started"`, `(repeat(1) | empty)`, `"notreached"`)
+	return strings.Join(parts, ", ")
+}
+
+func (sc scenario) abandoned() bool {
+	for _, i := range sc.Prefix {
+		if endedActions[i].abandoned {
+			return true
+		}
+	}
+	return false
+}
+
+// runScenario returns a violation signature (or "") and whether the run was conclusive.
+func runScenario(sc scenario) (sig, msg string, conclusive bool) {
+	var o *vos.OS
+	if sc.Mode == "cli" {
+		o = vos.New("-n", sc.program())
+	} else {
+		o = vos.New("-n", "-i")
+		o.StdinTTY, o.StdoutTTY = true, true
+		var mu sync.Mutex
+		lines := []string{sc.program(), `"alive-after"`}
+		pos := 0
+		o.ReadlineFn = func(opts interp.ReadlineOpts) (string, error) {
+			mu.Lock()
+			defer mu.Unlock()
+			if pos >= len(lines) {
+				return "", io.EOF
+			}
+			l := lines[pos]
+			pos++
+			return l, nil
+		}
+	}
+	o.Interrupt = make(chan struct{}, 1)
+	ctx, cancel := context.WithCancel(context.Background())
+	defer cancel()
+	resCh := make(chan vos.Result, 1)
+	go func() { resCh <- o.Run(ctx, interp.DefaultRegistry) }()
+	// wait for "started"
+	deadline := time.Now().Add(60 * time.Second)
+	for !strings.Contains(o.Out.String(), "started") {
+		if time.Now().After(deadline) {
+			cancel()
+			return "", "evaluation never reached the marker", false
+		}
+		select {
+		case <-resCh:
+			return "scenario:ended-before-interrupt", fmt.Sprintf("%s: fq ended before the long evaluation started; stdout %q stderr %q", sc.program(), o.Out.String(), o.Err.String()), true
+		case <-time.After(2 * time.Millisecond):
+		}
+	}
+	o.Interrupt <- struct{}{}
+	select {
+	case res := <-resCh:
+		out := string(res.Stdout)
+		if strings.Contains(out, "notreached") {
+			return "scenario:output-after-cancel", fmt.Sprintf("%s (%s): output of the cancelled evaluation after the interrupt", sc.program(), sc.Mode), true
+		}
+		if sc.Mode == "repl" && !strings.Contains(out, "alive-after") {
+			return "scenario:repl-level-lost", fmt.Sprintf("%s: the REPL level did not continue after the interrupt; stdout %q", sc.program(), out), true
+		}
+		return "", "", true
+	case <-time.After(20 * time.Second):
+		// the evaluation can only end by cancellation: 20 s after the
+		// interrupt was taken from the channel it is still running
+		cancel()
+		select {
+		case <-resCh:
+		case <-time.After(30 * time.Second):
+		}
+		return "scenario:interrupt-ignored", fmt.Sprintf("%s (%s): the interrupt was delivered while the last evaluation was running and 20 s later it still runs", sc.program(), sc.Mode), true
+	}
+}
+
+func TestInterruptAfterEndedEvaluations(t *testing.T) {
+	var scs []scenario
+	n := len(endedActions)
+	for _, mode := range []string{"cli", "repl"} {
+		scs = append(scs, scenario{Mode: mode})
+		for a := 0; a < n; a++ {
+			scs = append(scs, scenario{Prefix: []int{a}, Mode: mode})
+		}
+		if harness.Thorough() {
+			for a := 0; a < n; a++ {
+				for b := 0; b < n; b++ {
+					scs = append(scs, scenario{Prefix: []int{a, b}, Mode: mode})
+				}
+			}
+		} else {
+			// quick: pairs of the non-abandoned actions in rotating order
+			for a := 0; a < n; a++ {
+				b := (a*3 + 1 + int(harness.E.Seed)) % n
+				if !endedActions[a].abandoned && !endedActions[b].abandoned {
+					scs = append(scs, scenario{Prefix: []int{a, b}, Mode: mode})
+				}
+			}
+		}
+	}
+	abandonedRuns := 0
+	for i, sc := range scs {
+		if !harness.Mine(i) {
+			continue
+		}
+		if sc.abandoned() {
+			// each run of the known class waits out the 20 s: two per shard are enough
+			abandonedRuns++
+			if abandonedRuns > 2 && !harness.Thorough() {
+				continue
+			}
+		}
+		sig, msg, conclusive := runScenario(sc)
+		if !conclusive {
+			harness.ExtraAdd("scenario_inconclusive", 1)
+			continue
+		}
+		labels := []string{"scenario-" + sc.Mode, fmt.Sprintf("scenario-prefix-%d", len(sc.Prefix))}
+		for _, a := range sc.Prefix {
+			labels = append(labels, "ended:"+endedActions[a].name)
+		}
+		harness.Count(harness.Hash64(sc), len(sc.Prefix) >= 1, labels...)
+		if harness.WantSample("scenario", 3) && len(sc.Prefix) == 2 {
+			harness.Sample("scenario", 3, map[string]any{"mode": sc.Mode, "program": sc.program()})
+		}
+		if sig != "" {
+			if sc.abandoned() && sig == "scenario:interrupt-ignored" {
+				sig = "scenario:interrupt-ignored:after-abandoned-nested-eval"
+			}
+			if harness.Violate(t.Name(), sig, msg, sc) {
+				t.Errorf("[%s] %s", sig, msg)
+			}
+		}
+	}
+}
